@@ -14,7 +14,9 @@
 //!                              the real `trace_handles` supplies the roots, every node not connected
 //!                              to one is poisoned, later use of a poisoned handle is reported
 //!                              (`gc=<collections>,traced=<handles reported>,poisoned=<nodes>,nodes=<handles>@P=…`);
-//!                              extra opt `droplast` = self-test: the last reported handle is ignored.
+//!                              extra opt `droplast` = self-test: the last reported handle is ignored;
+//!                              `detach=<h>@s<n>` / `detach=<h>@c<n>`: handle h is removed from its parent at the n-th
+//!                              Script pause / after the n-th chunk, before the collection there (a script at work).
 use crate::proto::*;
 use crate::sinkops::*;
 use html5ever::tendril::TendrilSink;
@@ -589,6 +591,41 @@ fn show_gc(sink: &TS, st: &GcStats) -> String {
     )
 }
 
+/// `detach=<handle>@s<n>` / `detach=<handle>@c<n>`: what a script (or the embedder) does while parsing is
+/// suspended — at the n-th Script pause / after the n-th chunk the node is removed from its parent
+/// (through the sink), *before* the collection at that suspension point
+#[derive(Clone, Copy)]
+struct Detach {
+    handle: usize,
+    at_script: bool,
+    n: usize,
+}
+
+fn parse_detach(x: &str) -> Option<Detach> {
+    let (h, at) = x.split_once('@')?;
+    let handle = h.parse().ok()?;
+    let (at_script, n) = if let Some(r) = at.strip_prefix('s') {
+        (true, r.parse().ok()?)
+    } else if let Some(r) = at.strip_prefix('c') {
+        (false, r.parse().ok()?)
+    } else {
+        return None;
+    };
+    Some(Detach { handle, at_script, n })
+}
+
+fn do_detach(sink: &TS, d: &Option<Detach>, at_script: bool, n: usize) {
+    if let Some(d) = d {
+        if d.at_script == at_script && d.n == n && d.handle < sink.number_of_handles() {
+            if sink.poisoned.borrow().get(d.handle).copied().unwrap_or(false) {
+                return; // already collected: a script could not reach it
+            }
+            let inner = sink.handles.borrow()[d.handle].clone();
+            sink.remove_from_parent(&TracedHandle { id: d.handle, inner });
+        }
+    }
+}
+
 fn gc_run(xml: bool, opts: &str, chunks: &str) -> String {
     let chunks = match parse_chunks(chunks) {
         Some(c) => c,
@@ -598,12 +635,18 @@ fn gc_run(xml: bool, opts: &str, chunks: &str) -> String {
     let mut frag: Option<String> = None;
     // self-test of the oracle: pretend `trace_handles` forgot the handle it reports last
     let mut drop_last = false;
+    let mut detach: Option<Detach> = None;
     if opts != "-" {
         for o in opts.split(',') {
             if o == "s1" {
                 scripting = true;
             } else if o == "droplast" {
                 drop_last = true;
+            } else if let Some(x) = o.strip_prefix("detach=") {
+                match parse_detach(x) {
+                    Some(d) => detach = Some(d),
+                    None => return "bad-case".into(),
+                }
             } else if let Some(x) = o.strip_prefix("frag=") {
                 match parse_string(x) {
                     Some(n) => frag = Some(n),
@@ -619,20 +662,38 @@ fn gc_run(xml: bool, opts: &str, chunks: &str) -> String {
         collections: 0,
         traced: 0,
     };
+    let mut scripts = 0usize;
     if xml {
         let p = xml5ever::driver::parse_document(sink, Default::default());
-        for c in &chunks {
-            p.input_buffer.push_back(StrTendril::from_slice(c));
-            let _ = p.tokenizer.feed(&p.input_buffer);
+        let collect = |extra: Option<usize>, st: &mut GcStats| {
             let tr: IdTracer<Handle> = IdTracer::default();
             p.tokenizer.sink.trace_handles(&tr);
             let mut roots = tr.ids.borrow().clone();
             if drop_last {
                 roots.pop();
             }
-            st.collections += 1;
             st.traced += roots.len();
+            if let Some(x) = extra {
+                roots.push(x);
+            }
+            st.collections += 1;
             p.tokenizer.sink.sink.collect(&roots);
+        };
+        for (ci, c) in chunks.iter().enumerate() {
+            p.input_buffer.push_back(StrTendril::from_slice(c));
+            loop {
+                match p.tokenizer.feed(&p.input_buffer) {
+                    markup5ever::TokenizerResult::Done => break,
+                    markup5ever::TokenizerResult::Script(h) => {
+                        do_detach(&p.tokenizer.sink.sink, &detach, true, scripts);
+                        scripts += 1;
+                        collect(Some(h.id), &mut st)
+                    },
+                    markup5ever::TokenizerResult::EncodingIndicator(_) => collect(None, &mut st),
+                }
+            }
+            do_detach(&p.tokenizer.sink.sink, &detach, false, ci);
+            collect(None, &mut st);
         }
         p.tokenizer.end();
         show_gc(&p.tokenizer.sink.sink, &st)
@@ -664,15 +725,20 @@ fn gc_run(xml: bool, opts: &str, chunks: &str) -> String {
             st.collections += 1;
             p.tokenizer.sink.sink.collect(&roots);
         };
-        for c in &chunks {
+        for (ci, c) in chunks.iter().enumerate() {
             p.input_buffer.push_back(StrTendril::from_slice(c));
             loop {
                 match p.tokenizer.feed(&p.input_buffer) {
                     markup5ever::TokenizerResult::Done => break,
-                    markup5ever::TokenizerResult::Script(h) => collect(Some(h.id), &mut st),
+                    markup5ever::TokenizerResult::Script(h) => {
+                        do_detach(&p.tokenizer.sink.sink, &detach, true, scripts);
+                        scripts += 1;
+                        collect(Some(h.id), &mut st)
+                    },
                     markup5ever::TokenizerResult::EncodingIndicator(_) => collect(None, &mut st),
                 }
             }
+            do_detach(&p.tokenizer.sink.sink, &detach, false, ci);
             collect(None, &mut st);
         }
         p.tokenizer.end();
